@@ -5,7 +5,7 @@ from .. import core, chargen, wlgen
 def correspondence(ctx):
     ctx.rule = ("wlgen family: (word list from pools with twins, pre-capitalised, caseless, non-ASCII words; Length incl. 1 and non-positive; "
                 "six capitalisation strings incl. unknown ones; constant, empty, multi-byte, preset and recipe separators; tapes forcing first/last "
-                "word, first/last position, exact length). Observables: tokens with types, String(), Atoms(), Separators(), entropy, bytes consumed, "
+                "word, first/last position, exact length, rejected raw words at the threshold, tapes running dry part-way); scheme strings differing from the constants by case; every other case on a list that other recipes used first; SeparatorChar set in addition to a function; Unicode corner words (title form of another byte length, digraphs, combining marks, astral characters), words beyond 255 characters; synthetic lists of 2^16 and more words. Observables: tokens with types, String(), Atoms(), Separators(), entropy, bytes consumed, "
                 "index round trip. Non-trivial = distinct case with Length >= 2 and a boundary or exact tape, or an empty separator.")
     cases = wlgen.gen_cases(ctx, 300 if ctx.tier == "quick" else 4000)
     # the open finding F7: a list containing the empty word
